@@ -196,6 +196,8 @@ Qed.
 
 Lemma NoDup_app_r {X} (l m : list X) : NoDup (l ++ m) -> NoDup m.
 Proof. induction l as [|x l IH]; simpl; intros N; [exact N|]. inversion N; subst. apply IH. assumption. Qed.
+Lemma NoDup_app_l {X} (l m : list X) : NoDup (l ++ m) -> NoDup l.
+Proof. induction l as [|x l IH]; simpl; intros N; [constructor|]. inversion N as [|? ? Nx Nl]; subst. constructor; [|apply IH, Nl]. intros I. apply Nx, in_app_iff. left. exact I. Qed.
 Lemma NoDup_app_disj {X} (l m : list X) x : NoDup (l ++ m) -> In x l -> ~ In x m.
 Proof.
   induction l as [|y l IH]; simpl; intros N I J; [contradiction|]. inversion N as [|? ? Ny Nl]; subst. destruct I as [->|I].
@@ -366,6 +368,9 @@ Proof.
   - apply andb_true_iff in E. destruct E as [_ E]. apply (IH kb i E N).
 Qed.
 
+Lemma flat_map_ext_in {X Y} (f g : X -> list Y) l : (forall x, In x l -> f x = g x) -> flat_map f l = flat_map g l.
+Proof. induction l as [|a l IH]; intros H; simpl; [reflexivity|]. rewrite (H a (or_introl eq_refl)), IH; [reflexivity|]. intros x I. apply H. right. exact I. Qed.
+
 Lemma sem_pairs_ext_in {A B} (lk lk' : A -> list val) (rk rk' : B -> list val) how la lb :
   (forall a b, In a la -> In b lb -> mt lk rk a b = mt lk' rk' a b) -> sem_pairs lk rk how la lb = sem_pairs lk' rk' how la lb.
 Proof.
@@ -399,3 +404,246 @@ Proof.
   rewrite (nth_indep _ VNull (get cr rb "")) in K by (rewrite map_length; apply nth_error_Some; congruence).
   rewrite (map_nth (get cr rb)) in K. rewrite (nth_error_nth _ _ _ Eb) in K. exact K.
 Qed.
+
+(* ------------------------------------------------------------------ merge + deletions + loop against the reference join *)
+Section Core.
+  Variables (l r : table) (on_a on_b : list string) (how : merge_how) (sfx : string).
+  Hypothesis Wl : width_ok l.
+  Hypothesis Wr : width_ok r.
+  Let cl := cols l.
+  Let cr := cols r.
+  Let common := set_inter cl cr.
+  Let names := set_union cl cr.
+  Let semout := cl ++ filter (fun c => negb (mem c cl)) cr.
+  Hypothesis Hsfx : forall c, In c common -> ~ In (sapp c sfx) names.
+  Hypothesis Ha : forall c, In c on_a -> In c cl.
+  Hypothesis Hb : forall c, In c on_b -> In c cr.
+  Hypothesis Hclean : forall a b, In (a, b) (combine on_a on_b) -> In a cr -> a = b.
+  Hypothesis Hlen_ab : List.length on_a = List.length on_b.
+
+  (* the frames actually merged: l and r, possibly carrying one more (scratch) key column *)
+  Variables (L R : table) (lon ron dels : list string) (extL extR : list val -> list val).
+  Hypothesis HcL : cols L = cl ++ dels.
+  Hypothesis HcR : cols R = cr ++ dels.
+  Hypothesis HrL : rows L = map extL (rows l).
+  Hypothesis HrR : rows R = map extR (rows r).
+  Hypothesis HgL : forall ra c, In ra (rows l) -> In c cl -> get (cols L) (extL ra) c = get cl ra c.
+  Hypothesis HgR : forall rb c, In rb (rows r) -> In c cr -> get (cols R) (extR rb) c = get cr rb c.
+  Hypothesis Hdel : forall s, In s dels -> ~ In s names.
+  Hypothesis Hsn : forall c, same_named_key lon ron c = true <-> (In c dels \/ In (c, c) (combine on_a on_b)).
+  Hypothesis Hmt : forall ra rb, In ra (rows l) -> In rb (rows r) ->
+    keys_eqv (key_of (cols L) lon (extL ra)) (key_of (cols R) ron (extR rb)) = keys_eqv (key_of cl on_a ra) (key_of cr on_b rb).
+
+  Let kept := merge_right_cols lon ron (cols R).
+  Let ren := fun c => if mem c (cols L) then sapp c sfx else c.
+  Let out := merge_cols (cols L) (cols R) lon ron sfx.
+  Let PP := merge_pairs how L R lon ron.
+  Let SP0 := sem_pairs (key_of cl on_a) (key_of cr on_b) how (rows l) (rows r).
+  Let ext := pmap extL extR.
+  Let gg := g0 L R lon ron sfx.
+
+  Lemma in_names_l c : In c cl -> In c names.  Proof. intros I. apply In_set_union. left. exact I. Qed.
+  Lemma in_names_r c : In c cr -> In c names.  Proof. intros I. apply In_set_union. right. exact I. Qed.
+
+  Lemma PP_perm : Permutation PP (map ext SP0).
+  Proof.
+    unfold PP. rewrite merge_pairs_gen. eapply perm_trans; [apply gen_pairs_perm|]. rewrite HrL, HrR, sem_pairs_map.
+    unfold ext, SP0. rewrite (sem_pairs_ext_in (fun a => key_of (cols L) lon (extL a)) (key_of cl on_a) (fun b => key_of (cols R) ron (extR b)) (key_of cr on_b));
+      [apply Permutation_refl|]. intros a b Ia Ib. unfold mt. apply Hmt; assumption.
+  Qed.
+
+  (* the cells of the merged frame in terms of the ORIGINAL rows *)
+  Lemma fL_ext p0 c : In p0 SP0 -> In c cl ->
+    fL L R lon ron (ext p0) c = match fst p0 with
+                                | Some ra => get cl ra c
+                                | None => match snd p0 with
+                                          | Some rb => if same_named_key lon ron c then get cr rb c else VNull
+                                          | None => VNull
+                                          end
+                                end.
+  Proof.
+    intros I Ic. destruct (sem_pairs_from _ _ _ _ _ _ I) as [Fa [Fb _]]. unfold fL, ext, pmap. destruct p0 as [[ra|] [rb|]]; cbn [fst snd option_map].
+    - apply HgL; [apply Fa; reflexivity|exact Ic].
+    - apply HgL; [apply Fa; reflexivity|exact Ic].
+    - destruct (same_named_key lon ron c) eqn:Sn; [|reflexivity]. apply HgR; [apply Fb; reflexivity|].
+      apply Hsn in Sn. destruct Sn as [Sd|Sc]; [exfalso; apply (Hdel c Sd), in_names_l, Ic|]. apply Hb. eapply in_combine_r. exact Sc.
+    - reflexivity.
+  Qed.
+  Lemma fR_ext p0 c : In p0 SP0 -> In c cr -> fR R (ext p0) c = match snd p0 with Some rb => get cr rb c | None => VNull end.
+  Proof.
+    intros I Ic. destruct (sem_pairs_from _ _ _ _ _ _ I) as [_ [Fb _]]. unfold fR, ext, pmap. destruct p0 as [oa [rb|]]; cbn [fst snd option_map]; [|reflexivity].
+    apply HgR; [apply Fb; reflexivity|exact Ic].
+  Qed.
+
+  Lemma NoDup_cl : NoDup out -> NoDup cl.
+  Proof. intros Nout. unfold out, merge_cols in Nout. rewrite HcL in Nout. apply NoDup_app_l, NoDup_app_l in Nout. exact Nout. Qed.
+
+  (* a shared column that is not a left key is kept on the right under its suffixed name *)
+  Lemma shared_kept c : In c cl -> In c cr -> ~ In c on_a -> In c kept /\ ren c = sapp c sfx.
+  Proof.
+    intros Il Ir Na. split.
+    - unfold kept, merge_right_cols. apply filter_In. split; [rewrite HcR; apply in_app_iff; left; exact Ir|].
+      apply negb_true_iff. destruct (same_named_key lon ron c) eqn:Sn; [|reflexivity]. exfalso. apply Hsn in Sn. destruct Sn as [Sd|Sc].
+      + apply (Hdel c Sd), in_names_l, Il.
+      + apply Na. eapply in_combine_l. exact Sc.
+    - unfold ren. replace (mem c (cols L)) with true; [reflexivity|]. symmetry. apply mem_In. rewrite HcL. apply in_app_iff. left. exact Il.
+  Qed.
+  Lemma right_only_kept c : ~ In c cl -> In c cr -> In c kept /\ ren c = c.
+  Proof.
+    intros Nl Ir. assert (~ In c dels) as Nd by (intros I; apply (Hdel c I), in_names_r, Ir). split.
+    - unfold kept, merge_right_cols. apply filter_In. split; [rewrite HcR; apply in_app_iff; left; exact Ir|].
+      apply negb_true_iff. destruct (same_named_key lon ron c) eqn:Sn; [|reflexivity]. exfalso. apply Hsn in Sn. destruct Sn as [Sd|Sc]; [contradiction|].
+      apply Nl, Ha. eapply in_combine_l. exact Sc.
+    - unfold ren. replace (mem c (cols L)) with false; [reflexivity|]. symmetry. apply mem_false. rewrite HcL. intros I. apply in_app_iff in I. tauto.
+  Qed.
+
+  (* ---- the value the loop leaves in column x, against the cell of the reference join *)
+  Lemma final_cell p0 x : NoDup out -> In p0 SP0 -> In x semout ->
+    valD gg on_a sfx (rev common) (ext p0) x = sem_cell cl cr p0 x.
+  Proof.
+    intros Nout I Ix. unfold valD, coal, gg.
+    assert (mem x (rev common) = mem x common) as ->.
+    { destruct (mem x common) eqn:M; [apply mem_In, in_rev; rewrite rev_involutive; apply mem_In, M|].
+      apply mem_false. intros J. apply in_rev in J. apply mem_false in M. contradiction. }
+    unfold semout in Ix. apply in_app_iff in Ix.
+    destruct (sem_pairs_from _ _ _ _ _ _ I) as [Fa [Fb _]].
+    destruct (in_dec string_dec x cl) as [Il|Nl].
+    - (* a left column *)
+      assert (In x (cols L)) as IL by (rewrite HcL; apply in_app_iff; left; exact Il).
+      rewrite !(g0_left L R lon ron sfx _ x IL). rewrite (fL_ext p0 x I Il).
+      destruct (in_dec string_dec x cr) as [Ir|Nr].
+      + replace (mem x common) with true by (symmetry; apply mem_In, In_set_inter; split; assumption).
+        destruct (mem x on_a) eqn:Mo; cbn [andb negb].
+        * (* a key with the same name on both sides *)
+          apply mem_In in Mo. destruct (In_nth_error _ _ Mo) as [i Hi].
+          assert (In (x, x) (combine on_a on_b)) as Ixx.
+          { assert (exists b, In (x, b) (combine on_a on_b)) as [b Ib].
+            { clear -Mo Hlen_ab. revert on_b Hlen_ab. induction on_a as [|a t IH]; intros [|b ob] L; simpl in *; try discriminate; [contradiction|].
+              destruct Mo as [->|Mo]; [exists b; left; reflexivity|]. destruct (IH Mo ob) as [b' Ib']; [lia|]. exists b'. right. exact Ib'. }
+            pose proof (Hclean x b Ib Ir) as Eb. subst b. exact Ib. }
+          replace (same_named_key lon ron x) with true by (symmetry; apply Hsn; right; exact Ixx).
+          unfold sem_cell. apply mem_In in Il as Ml. apply mem_In in Ir as Mr. rewrite Ml, Mr.
+          destruct p0 as [[ra|] [rb|]]; cbn [fst snd].
+          -- destruct (is_null (get cl ra x)) eqn:En; [|reflexivity].
+             rewrite (key_pair_null cl cr on_a on_b ra rb x Ixx); [|apply (sem_pairs_matched _ _ _ _ _ _ _ I)|exact En].
+             destruct (get cl ra x); try discriminate. reflexivity.
+          -- destruct (is_null (get cl ra x)) eqn:En; [|reflexivity]. destruct (get cl ra x); try discriminate. reflexivity.
+          -- reflexivity.
+          -- reflexivity.
+        * (* a shared column that is coalesced *)
+          apply mem_false in Mo. destruct (shared_kept x Il Ir Mo) as [Ik Er]. rewrite <- Er.
+          rewrite (g0_right L R lon ron sfx Nout _ x Ik). rewrite (fR_ext p0 x I Ir).
+          assert (same_named_key lon ron x = false) as Sn.
+          { destruct (same_named_key lon ron x) eqn:Sn; [|reflexivity]. exfalso. apply Hsn in Sn. destruct Sn as [Sd|Sc].
+            - apply (Hdel x Sd), in_names_l, Il.
+            - apply Mo. eapply in_combine_l. exact Sc. }
+          rewrite Sn. unfold sem_cell. apply mem_In in Il as Ml. apply mem_In in Ir as Mr. rewrite Ml, Mr.
+          destruct p0 as [[ra|] [rb|]]; cbn [fst snd]; reflexivity.
+      + (* only on the left *)
+        replace (mem x common) with false by (symmetry; apply mem_false; intros J; apply In_set_inter in J; tauto). cbn [andb].
+        assert (same_named_key lon ron x = false) as Sn.
+        { destruct (same_named_key lon ron x) eqn:Sn; [|reflexivity]. exfalso. apply Hsn in Sn. destruct Sn as [Sd|Sc].
+          - apply (Hdel x Sd), in_names_l, Il.
+          - apply Nr, Hb. eapply in_combine_r. exact Sc. }
+        rewrite Sn. unfold sem_cell. apply mem_In in Il as Ml. rewrite Ml. replace (mem x cr) with false by (symmetry; apply mem_false, Nr).
+        destruct p0 as [[ra|] [rb|]]; cbn [fst snd]; try reflexivity; destruct (is_null (get cl ra x)) eqn:En; try reflexivity;
+          destruct (get cl ra x); try discriminate; reflexivity.
+    - (* only on the right *)
+      destruct Ix as [Ix|Ix]; [contradiction|]. apply filter_In in Ix. destruct Ix as [Ir _].
+      replace (mem x common) with false by (symmetry; apply mem_false; intros J; apply In_set_inter in J; tauto). cbn [andb].
+      destruct (right_only_kept x Nl Ir) as [Ik Er]. rewrite <- Er at 1.
+      rewrite (g0_right L R lon ron sfx Nout _ x Ik). rewrite (fR_ext p0 x I Ir).
+      unfold sem_cell. replace (mem x cl) with false by (symmetry; apply mem_false, Nl). apply mem_In in Ir as Mr. rewrite Mr.
+      destruct p0 as [[ra|] [rb|]]; cbn [fst snd]; reflexivity.
+  Qed.
+
+  Lemma sem_mk_get p0 x : get semout (sem_mk cl cr p0) x = if mem x semout then sem_cell cl cr p0 x else VNull.
+  Proof. unfold sem_mk. apply (get_map_cols (fun c => sem_cell cl cr p0 c)). Qed.
+
+  Lemma fold_del_length cs t t' : fold_left (fun acc c => r0 <- acc ;; pd_del c r0) cs (Some t) = Some t' -> width_ok t ->
+    Forall2 (fun r' r0 => forall x, In x (cols t') -> get (cols t') r' x = get (cols t) r0 x) (rows t') (rows t).
+  Proof.
+    intros H W. destruct (fold_del_rows _ _ _ H W) as [_ [_ [_ F]]]. eapply Forall2_weaken; [|exact F].
+    intros a b Hab x Ix. rewrite (Hab x). apply mem_In in Ix. rewrite Ix. reflexivity.
+  Qed.
+
+  Lemma core_refines x :
+    (res0 <- pd_merge how L R lon ron sfx ;;
+     res1 <- fold_left (fun acc s => r0 <- acc ;; pd_del s r0) dels (Some res0) ;;
+     fold_left (jstep on_a sfx) common (Some res1)) = Some x ->
+    refines x (mktable semout (map (sem_mk cl cr) SP0)) /\ width_ok x.
+  Proof.
+    unfold pd_merge. destruct (_ && _ && _ && _); [|discriminate]. fold out.
+    destruct (nodup_names out) eqn:Nd; cbn [obind]; [|discriminate]. fold PP.
+    assert (NoDup out) as Nout.
+    { clear -Nd. induction out as [|y t IH]; simpl in *; [constructor|]. apply andb_true_iff in Nd. destruct Nd as [N1 N2].
+      constructor; [apply mem_false, negb_true_iff, N1|apply IH, N2]. }
+    set (res0 := mktable out (map (merge_row (cols L) (cols R) lon ron) PP)).
+    assert (width_ok res0) as W0.
+    { unfold width_ok, res0. cbn [cols rows]. apply Forall_forall. intros r0 I. apply in_map_iff in I. destruct I as [p [<- _]].
+      apply (merge_row_length L R lon ron sfx). }
+    destruct (fold_left _ dels (Some res0)) as [res1|] eqn:Ed; cbn [obind]; [|discriminate].
+    destruct (fold_del_rows _ _ _ Ed W0) as [C1 [W1 [L1 _]]]. pose proof (fold_del_length _ _ _ Ed W0) as F1. cbn [cols rows] in C1, F1.
+    intros Hf.
+    assert (JInv PP gg on_a sfx (cols res1) res1 []) as J0.
+    { split; [exact W1|]. split; [unfold dropped; cbn [filter map mem negb]; rewrite filter_true; reflexivity|].
+      unfold res0 in F1. cbn [rows] in F1. rewrite <- (map_id PP). revert F1. generalize (rows res1) as rs. intros rs F1.
+      remember (map (merge_row (cols L) (cols R) lon ron) PP) as ms eqn:Ems. revert PP Ems.
+      induction F1 as [|a b rs ms' Hab F1 IH]; intros PP0 Ems; destruct PP0 as [|p PP0]; try discriminate; cbn [map]; constructor.
+      - intros x0 Ix0. cbn [map] in Ems. inversion Ems; subst. rewrite (Hab x0 Ix0). unfold valD, coal. cbn [mem andb]. reflexivity.
+      - cbn [map] in Ems. inversion Ems; subst. apply IH. reflexivity. }
+    assert (NoDup common) as Nc by (apply NoDup_filter, (NoDup_cl Nout)).
+    assert (forall c, In c ([] ++ common) -> In c names /\ ~ In (sapp c sfx) names) as Hn.
+    { intros c Ic. cbn [app] in Ic. split; [|apply Hsfx, Ic]. apply In_set_inter in Ic. apply in_names_l. tauto. }
+    pose proof (coalesce_fold PP gg on_a names sfx (cols res1) common [] res1 x Hn Nc J0 Hf) as [Wx [Cx Fx]]. rewrite app_nil_r in Cx, Fx.
+    split; [|exact Wx].
+    (* columns of the result *)
+    assert (forall c, In c semout -> In c (cols x)) as Sub.
+    { intros c Ic. rewrite Cx, C1. apply filter_In. split.
+      - apply filter_In. split.
+        + unfold semout in Ic. apply in_app_iff in Ic. unfold out, merge_cols. destruct Ic as [Ic|Ic].
+          * apply in_app_iff. left. rewrite HcL. apply in_app_iff. left. exact Ic.
+          * apply filter_In in Ic. destruct Ic as [Ir Nl]. apply negb_true_iff, mem_false in Nl. destruct (right_only_kept c Nl Ir) as [Ik Er].
+            apply in_app_iff. right. rewrite <- Er. apply in_map_iff. exists c. split; [reflexivity|exact Ik].
+        + apply negb_true_iff, mem_false. intros Id. apply (Hdel c Id). unfold semout in Ic. apply in_app_iff in Ic.
+          destruct Ic as [Ic|Ic]; [apply in_names_l, Ic|apply filter_In in Ic; apply in_names_r; tauto].
+      - apply negb_true_iff, mem_false. intros Id. unfold dropped in Id. apply in_map_iff in Id. destruct Id as [c0 [E0 I0]].
+        apply filter_In in I0. destruct I0 as [I0 _]. apply in_rev in I0. rewrite rev_involutive in I0.
+        apply (Hsfx c0 I0). rewrite E0. unfold semout in Ic. apply in_app_iff in Ic.
+        destruct Ic as [Ic|Ic]; [apply in_names_l, Ic|apply filter_In in Ic; apply in_names_r; tauto]. }
+    assert (forall c, In c (cols x) -> In c semout) as Sup.
+    { intros c Ic. rewrite Cx, C1 in Ic. apply filter_In in Ic. destruct Ic as [Ic Nd0]. apply filter_In in Ic. destruct Ic as [Io Ndel].
+      apply negb_true_iff, mem_false in Ndel. apply negb_true_iff, mem_false in Nd0.
+      unfold out, merge_cols in Io. apply in_app_iff in Io. unfold semout. apply in_app_iff. destruct Io as [Io|Io].
+      - rewrite HcL in Io. apply in_app_iff in Io. destruct Io as [Io|Io]; [left; exact Io|contradiction].
+      - apply in_map_iff in Io. destruct Io as [c0 [E0 Ik]]. unfold kept, merge_right_cols in Ik. apply filter_In in Ik. destruct Ik as [Ir0 Nsn].
+        rewrite HcR in Ir0. apply in_app_iff in Ir0. apply negb_true_iff in Nsn.
+        destruct Ir0 as [Ir0|Id0]; [|exfalso; assert (same_named_key lon ron c0 = true) as T by (apply Hsn; left; exact Id0); congruence].
+        destruct (in_dec string_dec c0 cl) as [Il0|Nl0].
+        + (* a shared column: its suffixed copy was dropped unless it is a left key, and then it is the same-named key *)
+          exfalso. destruct (in_dec string_dec c0 on_a) as [Ia0|Na0].
+          * assert (exists b, In (c0, b) (combine on_a on_b)) as [b Ib].
+            { clear -Ia0 Hlen_ab. revert on_b Hlen_ab. induction on_a as [|a t IH]; intros [|b ob] Ln; simpl in *; try discriminate; [contradiction|].
+              destruct Ia0 as [->|Ia0]; [exists b; left; reflexivity|]. destruct (IH Ia0 ob) as [b' Ib']; [lia|]. exists b'. right. exact Ib'. }
+            pose proof (Hclean c0 b Ib Ir0) as Eb. subst b.
+            assert (same_named_key lon ron c0 = true) as T by (apply Hsn; right; exact Ib). congruence.
+          * apply Nd0. unfold dropped. apply in_map_iff. exists c0. split.
+            -- rewrite <- E0. replace (mem c0 (cols L)) with true; [reflexivity|]. symmetry. apply mem_In. rewrite HcL. apply in_app_iff. left. exact Il0.
+            -- apply filter_In. split; [apply in_rev; rewrite rev_involutive; apply In_set_inter; split; assumption|].
+               apply negb_true_iff, mem_false, Na0.
+        + right. destruct (right_only_kept c0 Nl0 Ir0) as [_ Er]. fold ren in E0. rewrite Er in E0. subst c.
+          apply filter_In. split; [exact Ir0|]. apply negb_true_iff, mem_false, Nl0. }
+    (* the rows *)
+    exists (mktable semout (map (fun p => map (fun c => valD gg on_a sfx (rev common) p c) semout) PP)). split; [|split].
+    - split; cbn [cols rows]; [intros c; split; [apply Sup|apply Sub]|].
+      rewrite <- (map_id (rows x)). revert Fx. generalize (rows x) as rs. generalize PP as pp. intros pp rs Fx.
+      induction Fx as [|a p rs pp Hap Fx IH]; cbn [map]; constructor; [|exact IH].
+      intros c. rewrite (get_map_cols (fun c0 => valD gg on_a sfx (rev common) p c0)). destruct (mem c semout) eqn:M.
+      + apply Hap. apply Sub. apply mem_In, M.
+      + apply get_absent. intros Ic. apply Sup in Ic. apply mem_In in Ic. congruence.
+    - reflexivity.
+    - cbn [rows]. eapply perm_trans; [apply Permutation_map, PP_perm|]. rewrite map_map.
+      assert (map (fun x0 => map (fun c => valD gg on_a sfx (rev common) (ext x0) c) semout) SP0 = map (sem_mk cl cr) SP0) as ->; [|apply Permutation_refl].
+      apply map_ext_in. intros p0 I0. unfold sem_mk. apply map_ext_in. intros c Ic. apply (final_cell p0 c Nout I0 Ic).
+  Qed.
+End Core.
